@@ -208,6 +208,8 @@ def run_c17(case, fail):
         w = rs.rand(n, a).round(2)
     elif case["weights"] == 2:
         w = rs.randint(0, 3, size=(n, a)).astype(float)
+    if case["t"] % 4 == 1:
+        w = 1.0 + 1e-7 * rs.randint(0, 3, size=(n, a))       # near ties: vote totals that differ in the 7th digit are NOT ties
     w0 = None if w is None else w.copy()
     try:
         V = compute_vote_vectors(y, w=w, classes=classes, missing_label=ml)
